@@ -37,6 +37,9 @@ Stored(e, bytes) ==
        ELSE e.cap < p + n /\ Refused(e)
 
 TB64Enc == Ev.e = "B64Enc" /\ Chk(Stored(Ev, B64Enc(Ev.inp))) /\ UNCHANGED <<path, u>>
+(* the same call on a buffer that already holds more than 4 GiB: the event describes a window around the append       *)
+(* position (codec_adapter.c B64ENCAT); nothing outside the window - the first page of the buffer - may change          *)
+TB64EncAt == Ev.e = "B64EncAt" /\ Chk(Stored(Ev, B64Enc(Ev.inp)) /\ Ev.low = 1 /\ Ev.len >= 0) /\ UNCHANGED <<path, u>>
 TB64Dec == /\ Ev.e = "B64Dec"
            /\ Chk(IF B64WellFormed(Ev.inp) THEN Stored(Ev, B64DecBytes(Ev.inp)) ELSE Refused(Ev))
            /\ UNCHANGED <<path, u>>
@@ -138,7 +141,7 @@ TReset == /\ Ev.e = "Reset"
 TEnd == Ev.e = "End" /\ Ev.live = 0 /\ UNCHANGED <<path, u>>
 
 TNext == /\ l <= TraceLen /\ l' = l + 1
-         /\ \/ TReset \/ TB64Enc \/ TB64Dec \/ TB64DecLen \/ THexEnc \/ THexApp \/ THexDec \/ TLen
+         /\ \/ TReset \/ TB64Enc \/ TB64EncAt \/ TB64Dec \/ TB64DecLen \/ THexEnc \/ THexApp \/ THexDec \/ TLen
             \/ Dev_B64DecAccepts \/ TU8Whole \/ TU8Begin \/ TU8Update \/ TU8Final \/ TEnd
 TInit == l = 1 /\ path = "auto" /\ u = UIdle
 TSpec == TInit /\ [][TNext]_<<l, path, u>>
